@@ -103,7 +103,8 @@ func cmdCheck(args []string) int {
 	}
 	// shared harness files requested with //verif:use <name>
 	seenUse := map[string]bool{}
-	for _, h := range append([]*harnessFile{}, hfiles...) {
+	for i := 0; i < len(hfiles); i++ { // transitive: files appended below are scanned too
+		h := hfiles[i]
 		for _, line := range strings.Split(string(h.content), "\n") {
 			if strings.HasPrefix(line, "//verif:use ") {
 				name := strings.TrimSpace(strings.TrimPrefix(line, "//verif:use "))
